@@ -9,7 +9,7 @@ from harness import gen as G
 from harness import htaio
 from harness.props import common as C
 
-N_CASES = {"quick": 100, "thorough": 1500}
+N_CASES = {"quick": 160, "thorough": 1500}
 SHRINK = False
 ASSUMPTIONS = [
     "traces are handed over as LabeledTrace objects (parse-only frames, as the class does); iteration selections are taken from the ProfilerStep#k names present; rank selections are subsets of the ranks present",
